@@ -105,6 +105,13 @@ def run_property(pid, cfg, tier, seed, replay):
             what += "; no Print Assumptions for %s" % proof["missing_print_assumptions"]
         broken.append({"kind": "theorem", "what": what, "detail": proof["log"][-3000:]})
 
+    chk = None
+    if proof["ok"] and tier == "thorough":
+        ok, axioms, tail, dt = vlib.coqchk(pid)
+        chk = {"cmd": "coqchk -silent -o -Q . Mysync Mysync.Properties.%s" % pid, "clean": ok, "axioms": axioms, "wall_s": round(dt, 1)}
+        if not ok:
+            broken.append({"kind": "theorem", "what": "coqchk does not accept Properties/%s.vo cleanly (axioms: %s)" % (pid, axioms), "detail": tail})
+
     # ---------------- 3. correspondence: build checkers, run harness, evaluate cases
     corr_ok = True
     if cfg.get("corr"):
@@ -218,6 +225,7 @@ def run_property(pid, cfg, tier, seed, replay):
         "trusted_base": TRUSTED_COMMON + cfg.get("trusted", []),
         "theorems": [{"name": t, "axioms": proof["assumptions"].get(t)} for t in proof["theorems"]],
         "theorem_status": cfg.get("theorem_status", {}),
+        "coqchk": chk,
         "evaluations": ev_eval,
         "distinct_nontrivial": ev_dist,
         "rule": " | ".join(m.get("rule", "") for m in metas.values() if m.get("rule")),
